@@ -63,8 +63,22 @@ def apply_fn(fn, v):
     p = fn.split(',')
     if p[0] == 'neg':
         return -v
-    k = int(p[1])
-    return {'add': v + k, 'mul': v * k, 'lt': int(v < k), 'eq': int(v == k)}[p[0]]
+    return apply_fn2(p[0], v, int(p[1]))
+
+
+def apply_fn2(g, a, b):
+    return {'add': lambda: a + b, 'sub': lambda: a - b, 'mul': lambda: a * b, 'lt': lambda: int(a < b),
+            'eq': lambda: int(a == b), 'or': lambda: a | b, 'and': lambda: a & b, 'xor': lambda: a ^ b,
+            'shl': lambda: a << b, 'shr': lambda: a >> b}[g]()
+
+
+def elem_op(g, a, b):
+    """a <g> b for two arrays given as row lists, NumPy broadcasting of a one-row operand; None = ValueError"""
+    if len(b) == len(a):
+        return [apply_fn2(g, x, y) for x, y in zip(a, b)]
+    if len(b) == 1:
+        return [apply_fn2(g, x, b[0]) for x in a]
+    return None
 
 
 def parse_obs(s):
@@ -107,6 +121,7 @@ class Tracker:
         self.seqs = []        # dict(c=[cell ids], pend=None|[cells], alive, isbool, born, grew)
         self.t = 0
         self.nmul = 0
+        self.nseq = 0
 
     def copy(self):
         o = Tracker()
@@ -114,6 +129,7 @@ class Tracker:
         o.seqs = [dict(s, c=list(s['c']), pend=None if s['pend'] is None else list(s['pend'])) for s in self.seqs]
         o.t = self.t
         o.nmul = self.nmul
+        o.nseq = self.nseq
         return o
 
     def cell(self, vals):
@@ -240,6 +256,28 @@ class Tracker:
                 self.add([self.cell([apply_fn(fn, v) for v in self.cells[c]]) for c in S[i]['c']],
                          fn.split(',')[0] in ('lt', 'eq'))
             return 'ok'
+        if o == 'opq':
+            j = int(f[3])
+            A, B = S[i]['c'], S[j]['c']
+            if len(A) != len(B) or sum(len(self.cells[c]) for c in A) != sum(len(self.cells[c]) for c in B):
+                return 'err:Value'
+            if not A:
+                return 'err:StopIteration'
+            if f[4] == '1':
+                for c, d in zip(A, B):
+                    e = elem_op(f[2], self.cells[c], self.cells[d])
+                    if e is None:
+                        return 'err:Value'
+                    self.cells[c] = e
+            else:
+                out = []
+                for c, d in zip(A, B):
+                    e = elem_op(f[2], self.cells[c], self.cells[d])
+                    if e is None:
+                        return 'err:Value'
+                    out.append(e)
+                self.add([self.cell(e) for e in out], f[2] in ('lt', 'eq'))
+            return 'ok'
         if o == 'cat':
             js = [int(p.split(',')[0]) for p in f[1].split(';')] if f[1] else []
             if not js:
@@ -332,7 +370,17 @@ def core_alphabet(g, tr, level):
             ops.append(f'seti:{i}:0:{0 if b else 77}')
             if not b:
                 ops.append(f'op:{i}:add,100:1:0')
+                if g.kind == 'i':
+                    ops.append(f'op:{i}:or,8:1:0')
         if level >= 1:
+            ops.append(f'get:{i}:{enc_slice(None, -1, None)}')
+            if n and not b and s['pend'] is None:
+                mine = [len(tr.cells[c]) for c in s['c']]
+                for j in targets:
+                    t = tr.seqs[j]
+                    if not t['isbool'] and t['pend'] is None and [len(tr.cells[c]) for c in t['c']] == mine:
+                        ops.append(f'opq:{i}:add:{j}:1:0')
+                        ops.append(f'opq:{i}:{"xor" if g.kind == "i" else "mul"}:{j}:0:0')
             ops.append(f'copy:{i}')
             ops.append(f'view:{i}:{g.tiny}')
             ops.append(f'get:{i}:{enc_slice(None, None, -1)}')
@@ -356,6 +404,41 @@ def core_alphabet(g, tr, level):
                 ops.append(f'exts:{c}:?:{a}')
             ops.append(f'cat:{c},?;{a},?')
     return ops
+
+
+def seqop_core(g, tiny):
+    """operators with an ArraySequence operand: independent objects, the same object, and different
+    OVERLAPPING views of one buffer (shifted slices, parent vs reversed view, list views), in place
+    and out of place, followed by an assignment through the target; bitwise in-place operators
+    followed by an assignment through the same name (integer configurations)"""
+    out = []
+    for init in ([[1], [2], [3], [4]], [[1, 2], [3, 4], [5, 6]]):
+        pre = [f'new:{tiny}:{g.bpr()}:1:{enc_elems(init)}',
+               f'get:0:{enc_slice(1, None, None)}',      # 1 = p[1:]
+               f'get:0:{enc_slice(None, -1, None)}',     # 2 = p[:-1]
+               f'get:0:{enc_slice(None, None, -1)}',     # 3 = p[::-1]
+               f'get:0:{enc_slice(None, None, None)}',   # 4 = p[:]
+               'copy:0',                                 # 5 independent
+               'get:0:l,1,0' + ''.join(f',{k}' for k in range(2, len(init))),   # 6 = permuted list view
+               f'new:{tiny}:{g.bpr(1)}:1:{enc_elems([[7]] * len(init))}']        # 7: one-row elements (broadcast)
+        n = len(init)
+        lens = {0: n, 1: n - 1, 2: n - 1, 3: n, 4: n, 5: n, 6: n, 7: n}
+        fns = ['add', 'mul', 'sub'] + (['or', 'xor'] if g.kind == 'i' else [])
+        for a in range(8):
+            for b in range(8):
+                if lens[a] != lens[b]:
+                    continue
+                for fn in fns:
+                    out.append(pre + [f'opq:{a}:{fn}:{b}:1:0', f'seti:{a}:0:77'])
+                out.append(pre + [f'opq:{a}:add:{b}:0:0'])
+                out.append(pre + [f'opq:{a}:lt:{b}:0:1'])
+        out.append(pre + ['opq:1:add:0:1:0'])            # refusal: different numbers of elements
+        if g.kind == 'i':
+            for v in (1, 3, 4):
+                for fn in ('or,8', 'and,6', 'xor,5', 'shl,1', 'shr,1'):
+                    out.append(pre + [f'op:{v}:{fn}:1:0', f'seti:{v}:0:1', f'set:{v}:{enc_slice(None, None, None)}:v2'])
+                    out.append(pre + [f'op:{v}:{fn}:0:0'])
+    return out
 
 
 def exhaustive(g, init_tok, depth, level, cap=None):
@@ -429,7 +512,8 @@ def random_history(g, rng, depth, bytes_choices):
                 kind = 'fin'
         else:
             kinds = ['app', 'app', 'ext', 'ext', 'exts', 'get', 'get', 'get', 'view', 'copy', 'seti', 'setr',
-                     'set', 'setq', 'iop', 'iop', 'op', 'cmp', 'geti', 'appc', 'extg', 'cat', 'drop', 'new', 'bad']
+                     'set', 'setq', 'iop', 'iop', 'op', 'cmp', 'geti', 'appc', 'extg', 'cat', 'drop', 'new', 'bad',
+                     'opq', 'opq', 'bit']
             kind = rng.choice(kinds)
             if kind in ('app', 'ext', 'appc', 'extg') and not room:
                 kind = 'get'
@@ -489,6 +573,41 @@ def random_history(g, rng, depth, bytes_choices):
                     push(f'op:{i}:mul,{rng.choice([-1, 2, 3])}:1:0')
                 else:
                     push(f'op:{i}:add,{rng.choice([10, 100, -5])}:1:0')
+        elif kind == 'bit':
+            if not b and g.kind == 'i':
+                fn = rng.choice(['or,8', 'and,1023', 'xor,5', 'shl,1', 'shr,1'])
+                if fn.startswith('shl') and tr.nmul >= 4:
+                    fn = 'shr,1'
+                if fn.startswith('shl'):
+                    tr.nmul += 1
+                push(f'op:{i}:{fn}:{rng.choice([1, 1, 0])}:0')
+        elif kind == 'opq':
+            if not b and n:
+                mine = [len(tr.cells[c]) for c in s['c']]
+                ok = lambda j: (not tr.seqs[j]['isbool'] and tr.seqs[j]['pend'] is None and tr.seqs[j]['c'])
+                same = [j for j in live if ok(j) and [len(tr.cells[c]) for c in tr.seqs[j]['c']] == mine]
+                ones = [j for j in live if ok(j) and [len(tr.cells[c]) for c in tr.seqs[j]['c']] == [1] * n
+                        and sum(mine) == n]
+                r = rng.random()
+                if r < 0.1:
+                    j = rng.choice(live)
+                    tj = tr.seqs[j]
+                    if not tj['isbool'] and (len(tj['c']) != n or sum(len(tr.cells[c]) for c in tj['c']) != sum(mine)):
+                        push(f'opq:{i}:add:{j}:{rng.choice([0, 1])}:0')      # refused by _check_shape
+                elif same + ones:
+                    j = rng.choice(same + ones)
+                    inplace = rng.random() < 0.6
+                    # magnitudes: a sequence operand can double every value (no products here; float32
+                    # payloads must stay exact), so value-growing operators have a small budget
+                    grow = ['add', 'sub'] + (['or', 'xor'] if g.kind == 'i' else [])
+                    fns = (grow if tr.nseq < (6 if g.kind == 'i' else 2) else []) + (['and'] if g.kind == 'i' else [])
+                    fn = rng.choice(fns + ['lt', 'eq']) if (not inplace or not fns) else rng.choice(fns)
+                    if fn in ('lt', 'eq'):
+                        inplace = False
+                    if fn in grow:
+                        tr.nseq += 1
+                    dc = 1 if fn in ('lt', 'eq') else 0
+                    push(f'opq:{i}:{fn}:{j}:{1 if inplace else 0}:{dc}')
         elif kind == 'op':
             fn = rng.choice(['add,1', 'add,1000', 'neg', 'mul,2']) if not b else 'add,3'
             if fn.startswith('mul') and tr.nmul >= 4:
@@ -664,6 +783,33 @@ def _check_history(toks, steps, lays, fails, known):
                 else:
                     new_idx = nslots
                     exp[new_idx] = [[apply_fn(f[2], v) for v in e] for e in prev[i]]
+            elif o == 'opq':
+                # a Python list of arrays:  for a, b in zip(A, B): a <op>= b   (element after element)
+                j = int(f[3])
+                A, B = prev[i], prev[j]
+                if len(A) != len(B) or sum(map(len, A)) != sum(map(len, B)):
+                    exp_res = 'err:Value'
+                elif not A:
+                    exp_res = 'err:StopIteration'
+                elif f[4] == '1':
+                    cells, sc = cellstore()
+                    for c, d in zip(sc[i], sc[j]):
+                        e = elem_op(f[2], cells[c], cells[d])
+                        if e is None:
+                            exp_res = 'err:Value'
+                            skip = True          # partial update before the refusal
+                            break
+                        cells[c] = e
+                    if exp_res == 'ok':
+                        for x in exp:
+                            exp[x] = [list(cells[c]) for c in sc.get(x, [])]
+                else:
+                    out = [elem_op(f[2], a, b) for a, b in zip(A, B)]
+                    if any(e is None for e in out):
+                        exp_res = 'err:Value'
+                    else:
+                        new_idx = nslots
+                        exp[new_idx] = out
 
         # ---- compare
         if not skip:
@@ -681,14 +827,23 @@ def _check_history(toks, steps, lays, fails, known):
                             cat = 'grow_isolated'
                         elif o in ('seti', 'setr', 'set'):
                             cat = 'view_write_through'
-                        elif o == 'op' and f[3] == '1':
+                        elif (o == 'op' and f[3] == '1') or (o == 'opq' and f[4] == '1'):
                             cat = 'inplace_all_or_none'
                         else:
                             cat = 'bystander_changed'
                         fails.append((cat, k, f'{tok}: seq {x} expected {exp.get(x)} got {cur.get(x)}'))
                         break
+        # ---- an in-place operator must not change which buffer the object uses (no dtype change in place)
+        if ((o == 'op' and f[3] == '1') or (o == 'opq' and f[4] == '1')) and res.startswith('ok') \
+                and target in prev_lay and target in cur_lay:
+            before = {x for x, v in prev_lay.items() if v[0] == prev_lay[target][0] and x in cur_lay}
+            after = {x for x, v in cur_lay.items() if v[0] == cur_lay[target][0] and x in prev_lay}
+            if before != after:
+                fails.append(('inplace_rebinds_buffer', k,
+                              f'{tok}: seq {target} shared its buffer with {sorted(before)} before and with '
+                              f'{sorted(after)} after an in-place operator'))
         # ---- unconditional view semantics (Python list lineage): S-C15d
-        if o in ('seti', 'setr', 'set') or (o == 'op' and f[3] == '1'):
+        if o in ('seti', 'setr', 'set') or (o == 'op' and f[3] == '1') or (o == 'opq' and f[4] == '1'):
             if res == 'ok' and target in prev_lay:
                 mine = set(tr.seqs[target]['c']) if target < len(tr.seqs) else set()
                 for x, sx in enumerate(tr.seqs):
@@ -705,7 +860,8 @@ def _check_history(toks, steps, lays, fails, known):
                             fails.append(('view_detached_without_growth', k,
                                           f'{tok}: seq {x} and {target} share elements by lineage, not buffers'))
         tr.apply(tok)
-        if res == 'ok' and (o in ('new', 'cat', 'get', 'view', 'copy') or (o == 'op' and f[3] == '0')):
+        if res == 'ok' and (o in ('new', 'cat', 'get', 'view', 'copy') or (o == 'op' and f[3] == '0')
+                            or (o == 'opq' and f[4] == '0')):
             nslots += 1
         prev = cur
         prev_lay = cur_lay
